@@ -238,3 +238,15 @@ Definition lost_gen (s : state) : list name := flat_map f_lost (stack s).
 Definition kept (d : dict) : list name :=
   flat_map (fun e : name * (name * bool) => if snd (snd e) then [] else [fst (snd e)]) d.
 Definition live_kept (s : state) : list name := flat_map (fun f => kept (f_dict f)) (stack s).
+
+(** ---------------------------------------------------------------------------------------
+    src/rules/rename_variables/mod.rs: the configured globals.  [Box::<RenameVariables>::default()]
+    starts from DEFAULT; [set_globals] walks the configured list in order and EXTENDS the list:
+    "$default" appends DEFAULT, "$roblox" appends ROBLOX, any other (valid) identifier is pushed. *)
+Inductive gentry := GDefault | GRoblox | GName (x : name).
+Definition expand_entry (dflt roblox : list name) (e : gentry) : list name :=
+  match e with GDefault => dflt | GRoblox => roblox | GName x => [x] end.
+Definition set_globals (dflt roblox : list name) (current : list name) (l : list gentry) : list name :=
+  fold_left (fun acc e => acc ++ expand_entry dflt roblox e) l current.
+Definition configured_globals (dflt roblox : list name) (l : list gentry) : list name :=
+  set_globals dflt roblox dflt l.
